@@ -152,6 +152,9 @@ func (g *Message) Parse(bt []byte) error {
 				return fmt.Errorf("wrong length for %s command: %v (must be >= 8)", g.Command.String(), len(bt))
 			}
 			g.Data = bt[5 : len(bt)-2]
+		} else {
+			// a plain command has no data: a receiver that is reused must not keep the data of an earlier message
+			g.Data = nil
 		}
 	case 0x07:
 		g.IsResponse = true
